@@ -26,3 +26,29 @@ Theorem C08_table_ok : forallb (fun p => brain_elem_ok (snd p)) (build_table tab
 Proof. vm_compute. reflexivity. Qed.
 
 Print Assumptions C08_generator_pure. Print Assumptions C08_history_independent. Print Assumptions C08_table_ok.
+
+(* non-vacuity: two concrete requests sharing hydrogen, on the regenerated table, in exact arithmetic: the hypotheses
+   of C08_generator_pure hold and the call returns a five-peak pattern *)
+From Coq Require Import QArith Qcanon.
+From CE Require Import NumQc.
+Definition c08_el (s : string) : elem := match tbl_get s (build_table table_src) with Some e => e | None => elem0 end.
+Definition c08_r1 : request (F:=Qc) := mkReq [(c08_el "C", 6%Z); (c08_el "H", 12%Z)] 4%Z (Q2Qc 1) 1%Z (PROTON NumQc).
+Definition c08_r2 : request (F:=Qc) := mkReq [(c08_el "H", 2%Z); (c08_el "O", 1%Z)] 2%Z (Q2Qc 1) 0%Z (PROTON NumQc).
+Example C08_nonvacuous :
+  reqs_ok (c08_r1 :: [c08_r2; c08_r1])
+  /\ (match fst (gen_call NumQc (gen_run NumQc [c08_r2; c08_r1]) c08_r1) with Some l => List.length l | None => 0%nat end) = 5%nat.
+Proof.
+  split; [|vm_compute; reflexivity].
+  split.
+  - intros r en Hr Hen.
+    assert (Hc : In en (rq_comp c08_r1) \/ In en (rq_comp c08_r2)).
+    { destruct Hr as [<-|[<-|[<-|[]]]]; auto. }
+    destruct Hc as [H|H]; cbn in H; destruct H as [<-|[<-|[]]]; vm_compute; reflexivity.
+  - intros r r' en en' Hr Hr' Hen Hen' Hs.
+    assert (Hc : In en (rq_comp c08_r1) \/ In en (rq_comp c08_r2)) by (destruct Hr as [<-|[<-|[<-|[]]]]; auto).
+    assert (Hc' : In en' (rq_comp c08_r1) \/ In en' (rq_comp c08_r2)) by (destruct Hr' as [<-|[<-|[<-|[]]]]; auto).
+    destruct Hc as [H|H]; cbn in H; destruct H as [<-|[<-|[]]];
+    destruct Hc' as [H'|H']; cbn in H'; destruct H' as [<-|[<-|[]]];
+    first [reflexivity | (exfalso; vm_compute in Hs; discriminate Hs)].
+Qed.
+Print Assumptions C08_nonvacuous.
